@@ -92,6 +92,8 @@ let () =
     | 2 -> { !cfg with fix_f7 = false; fix_f14 = true; fix_f7b = true }
     | _ -> { !cfg with fix_f7 = true; fix_f14 = false; fix_f7b = true } in
   let tin = ref tinit0 in
+  (* descriptors the TightVNC extension lost (TLostFd), per tight variant: they show at teardown *)
+  let tlost = Array.make 3 0 in
   let i = ref 0 in
   let take_env () =
     let envs = ref [] and txt = ref [] in
@@ -102,14 +104,14 @@ let () =
     (List.rev !envs, List.rev !txt) in
   let emit_all (outs : string list array) =
     List.iter print_endline outs.(0);
-    for k = 1 to nv - 1 do
+    for k = 1 to Array.length outs - 1 do
       if outs.(k) <> outs.(0) then List.iter (fun l -> print_endline (Printf.sprintf "alt%d %s" k l)) outs.(k)
     done in
   while !i < n do
     let line = arr.(!i) in
     (match split_ws line with
      | [] -> ()
-     | "case" :: _ -> print_endline line; Array.fill sts 0 nv st0; perms := []; dflt := true
+     | "case" :: _ -> print_endline line; Array.fill sts 0 nv st0; Array.fill tlost 0 3 0; perms := []; dflt := true
      | ["cfg"; p; cb; hm] ->
        let h = if hm = "none" then None else if hm = "sb" then Some (bytes_of_string (root ^ "/sb")) else Some (hb hm) in
        cfg := { permit = (p = "1"); has_cb = (cb <> "none"); home = h; fix_f7 = true; fix_f14 = true; fix_f7b = true };
@@ -144,10 +146,13 @@ let () =
      | ["gone"] ->
        let _ = take_env () in
        print_endline "gone";
-       let outs = Array.init nv (fun k ->
-         let ((ok, evs), s') = run_gone (vcfg k) [] sts.(k) in
-         sts.(k) <- s';
-         if ok then [Printf.sprintf "leak %d" (int_of_z s'.lost_fds + (if s'.fd_open then 1 else 0))] else ["hang"]) in
+       let res = Array.init nv (fun k ->
+         let ((ok, _), s') = run_gone (vcfg k) [] sts.(k) in
+         sts.(k) <- s'; (ok, int_of_z s'.lost_fds + (if s'.fd_open then 1 else 0))) in
+       let line (ok, n) extra = if ok then [Printf.sprintf "leak %d" (n + extra)] else ["hang"] in
+       (* 0..nv-1: the UltraVNC variants with the tree's TightVNC flow; nv, nv+1: the tree's UltraVNC flow with the
+          other two TightVNC variants *)
+       let outs = Array.init (nv + 2) (fun k -> if k < nv then line res.(k) tlost.(0) else line res.(0) tlost.(k - nv + 1)) in
        emit_all outs
      | "targs" :: pw :: args ->
        let _ = take_env () in
@@ -200,7 +205,7 @@ let () =
          | TUtime p -> "fs utime " ^ hex_of_bytes p | TUnlink p -> "fs unlink " ^ hex_of_bytes p
          | TMkdirOp p -> "fs mkdir " ^ hex_of_bytes p
          | TStatEntry (d, n) -> "fs stat " ^ hex_of_bytes d ^ "2f" ^ hex_of_bytes n
-         | TOverflow -> "overflow" in
+         | TOverflow -> "overflow" | TLostFd -> "lostfd" in
        let gate = tight_gate true (en = "1") (vo = "1") in
        (* variant 0 = the tree; 1 = with the proposed notes/fix_C19_4/5.diff; 2 = the flow before 7654ac8 *)
        let vs = [| v_tight_tree; v_tight_fixed; v_tight_prefix |] in
@@ -218,7 +223,9 @@ let () =
                  | x -> x) in
              let outs = Array.init 3 (fun k ->
                  let (o, s') = tight_step_g vs.(k) ftproot sts.(k) (gate, m1) in
-                 sts.(k) <- s'; List.map op_line o) in
+                 sts.(k) <- s';
+                 tlost.(k) <- tlost.(k) + List.length (List.filter (fun x -> x = TLostFd) o);
+                 List.map op_line (List.filter (fun x -> x <> TLostFd) o)) in
              List.iter print_endline outs.(0);
              for k = 1 to 2 do
                if outs.(k) <> outs.(0) then begin
